@@ -42,7 +42,8 @@ def make_settings(rng: random.Random, default_glob: bool = False) -> Dict[str, A
         glob = {k: rng.choice(GLOB_GRID) for k in ("READOUT", "MICROWAVE", "FLUX", "RESET")}
     # a key may be absent at first (the library then reads its default 0.0) and only be registered by a later set event
     reg = {k: rng.choice(DURS) for k in REG_KEYS if rng.random() < 0.75}
-    reps = {k: rng.choice([1, 2, 3]) for k in REP_KEYS}
+    # repetition keys may be unregistered as well (a registry-provided count then reads the library default 1)
+    reps = {k: rng.choice([1, 2, 3]) for k in REP_KEYS if rng.random() < 0.8}
     return {"glob": glob, "reg": reg, "reps": reps}
 
 
